@@ -233,7 +233,7 @@ PROPERTY = dict(
                           range='<=2 features, unbounded range start / width', read='2 features, read with 1-2 aligned blocks of 1-2 bases, both methods', molecule='FeatureAnnotatedMolecule over one forward or reverse read (1-2 blocks) and 1-2 features with start 6..14, length 0/1/3/6, 3 strand values; stranded any / same / opposite; both methods',
                           history='add/(sort)/query x2 (thorough x3) with coordinates from the pool {0,3,5,8} (thorough +10) (they are cache keys), 2 query coordinates repeated in every phase, explicit re-index or automatic, REAL functools.lru_cache'),
             'thorough': dict(point='3 features split over the relative order of starts')},
-    outside=['GTF/BED loading', 'several contigs (per-contig dictionaries)', 'more than 3 features', 'findNearestFeature'],
+    outside=['GTF/BED loading', 'several contigs (per-contig dictionaries)', 'more than 3 features', 'findNearestFeature', 'features that differ only in strand None vs +/-', 'negative feature coordinates', 'exact duplicate features'],
     assumptions=['numpy (searchsorted, fromiter, argsort, max) inside features.py replaced by stubs/npshim.py, validated against real numpy on every run',
                  'for L3 CrossHair\'s lru_cache bypass is removed so the real memo runs (coordinates concrete per path)'],
     trusted=['stubs/npshim.py', 'stubs/fakeread.py', 'spec/c16.py'],
